@@ -19,7 +19,7 @@ ID = "C18"
 LEVEL_TEXT = ("Theorems over all class tables (any number of classes, any bodies, any MRO lists): the __init__ Griffe synthesises for a decorated "
               "class without a hand-written __init__ has exactly the parameters (names, order, kind, required-ness) of the __init__ CPython's "
               "dataclasses module generates, modulo eight decidable known-gap predicates (findings F1-F8), each refuted by a computed witness; "
-              "for single-inheritance tables the multiple-inheritance gap (F6) is proved impossible; a hand-written __init__ is kept by both; an "
+              "for single-inheritance tables of any depth the multiple-inheritance gap (F6) is proved impossible (CPython's accumulated field dict = flat reverse-MRO collection); a hand-written __init__ is kept by both; an "
               "undecorated class gets none; the 'dataclass' label equals dataclasses.is_dataclass unless the class has a hand-written __init__ (F9). "
               "The model is tied to extensions/dataclasses.py by differential runs on generated hierarchies loaded from files with griffe.load, "
               "and the CPython model to real execution of the same source.")
@@ -32,8 +32,8 @@ MODEL = ("Model.C18_dataclass", "run_C18")
 COQ_TARGETS = ["Proofs/C18_dataclass.vo"]
 RULE = ("systematic: every (parent decorator, child decorator) pair over {undecorated} + {init in (absent,True,False)} x {kw_only in (absent,True,False)} "
         "x fixed body pairs; every single field form (5 annotation kinds x value none/plain/each field(...) argument combination) under each kw-only "
-        "context; seeded random hierarchies of 1-4 classes (thorough: up to 5), depth <=3-4, 0-2 bases, bodies of 0-5 statements over a pool of 6 "
-        "names so that overrides collide, optional hand-written __init__, one- or two-module layout. non-trivial = at least one decorated class with "
+        "context; seeded random diamonds A;B(A);C(A);D(B,C)|D(C,B) over three names; seeded random hierarchies of 1-4 classes (thorough: up to 5), depth <=3-4, 0-2 bases, bodies of 0-5 statements over a pool of 6 "
+        "names so that overrides collide, optional hand-written __init__, one- or two-module package layout (25%), `from __future__ import annotations` (9%), decorator/field/KW_ONLY/InitVar spelled bare or through `dataclasses.`. CPython-rejected modules are counted and compared with the model's rejection. non-trivial = at least one decorated class with "
         "at least one annotated statement; distinct by rendered source")
 TRUSTED = ["renderer: harness turns the generated class table into source text; the same table is the model input (abstraction = generator structure)"]
 ASSUMPTIONS = ["Class.mro() equals CPython's __mro__ on the generated hierarchies (checked on every case; C07's property)",
@@ -741,9 +741,9 @@ def explore(ctx):
 
 def search(ctx):
     """Implementation vs CPython only, gap predicates from the python mirror (used when the model or a proof is unavailable)."""
-    for k in range(40):
+    for k in range(20):
         check_tables(ctx, [rand_table(ctx.rng, maxn=4, quiet=(j % 2 == 0)) for j in range(200)], "search", use_model=False, mirror=True)
-        if ctx.prop_failures or ctx.elapsed() > 900:
+        if ctx.prop_failures or ctx.elapsed() > 500:
             return
 
 
